@@ -248,7 +248,14 @@ def c06(case, stats):
         return [], None, None
     top_b = S.clone(top)
     nodes_b, _ = S.index(top_b)
-    if how == 'cleanup':
+    if how == 'self_cancel':
+        # ends with a CancelledError of its own instead of returning; only
+        # for a job nobody requires
+        if nodes[switch]['outcome'] != 'ret' or any(
+                _is_successor(top, switch, other) for other in nodes):
+            return [], None, None
+        nodes_b[switch]['outcome'] = 'self_cancel'
+    elif how == 'cleanup':
         # raises from its cancellation handler instead of ending cancelled
         if nodes[switch].get('cleanup_outcome') == 'exc':
             return [], None, None
